@@ -266,6 +266,19 @@ class SMUserList(UserList, ABC):
 
     # ------------------------------------------------------------------------ #
 
+    # collections.UserList.__eq__ compares the two lists of NumPy arrays, which raises ValueError (the truth
+    # value of an array is ambiguous) for two objects of the same class.  Compare those element by element;
+    # a subclass with its own notion of equality overrides these.
+    def __eq__(self, other):
+        if type(self) != type(other):
+            return super().__eq__(other)
+        return self.binop(other, lambda x, y: bool(np.array_equal(x, y)), list1=False)
+
+    def __ne__(self, other):
+        if type(self) != type(other):
+            return super().__ne__(other)
+        return self.binop(other, lambda x, y: not np.array_equal(x, y), list1=False)
+
     def __getitem__(self, i):
         """
         Access value of an instance (SMUserList superclass method)
